@@ -6,7 +6,7 @@ from .. import dagsweep as D
 from .. import sweepprops as S
 
 LEVEL = 'proof'
-NEEDS = ['SFTopo', 'SubGraph', 'SubGraphProofs', 'Extracted', 'SourceFacts', 'Bridge', 'BridgeProofs', 'Base', 'Digraph', 'DigraphProofs', 'Queries', 'QueriesProofs', 'CorrDag']
+NEEDS = ['TopoSort', 'TopoSortProofs', 'SFTopo', 'SubGraph', 'SubGraphProofs', 'Extracted', 'SourceFacts', 'Bridge', 'BridgeProofs', 'Base', 'Digraph', 'DigraphProofs', 'Queries', 'QueriesProofs', 'CorrDag']
 
 
 def dpe_tokens(g, n):
